@@ -89,6 +89,14 @@ def cases(ctx, big=False):
     out.append(dict(escape=True, hardwrap=False, renderer="html", plugins=None, chan="none", outfile=False, doc=""))
     for rend in RENDERERS:
         out.append(dict(escape=False, hardwrap=False, renderer=rend, plugins=None, chan="-f", outfile=True, inplace=True, doc="# Title\n\nin *place* text\n"))
+    for chan in ("-f", "-m"):
+        for outf in (False, True):
+            out.append(dict(escape=False, hardwrap=False, renderer="html", plugins=None, chan=chan, outfile=outf, doc="the *named* input\n" if chan == "-f" else "the *named* input", extra_stdin="OTHER **stdin** data\n"))
+    # files larger than 64 KiB: multi-byte characters and line ends at every alignment against a 64 KiB boundary
+    big = "# h\n\n" + ("\u65e5\u672c\u8a9e\u00e4\u00f6 " * 5 + "\n") * 2400 + "\nend\n"
+    for pad in range(0, 4):
+        out.append(dict(escape=False, hardwrap=False, renderer="html", plugins=None, chan="-f", outfile=(pad % 2 == 1), doc="p" * pad + "\n\n" + big))
+    out.append(dict(escape=False, hardwrap=False, renderer="html", plugins=None, chan="stdin", outfile=False, doc=big))
     for doc in ("---", "-x", "- item\n- two", "-", "--help me", "@file"):
         out.append(dict(escape=True, hardwrap=False, renderer="html", plugins=None, chan="-m", outfile=False, doc=doc))
     return out
@@ -108,6 +116,8 @@ def one(case, tmp, idx):
         args += ["-f", fpath]; file = fpath
     if case["chan"] == "stdin":
         stdin = doc
+    if case.get("extra_stdin") is not None:
+        stdin = case["extra_stdin"]        # data waiting on stdin although -m / -f is given (a shell loop, a subprocess pipe)
     if case["escape"]: args.append("--escape")
     if case["hardwrap"]: args.append("--hardwrap")
     if case["renderer"] != "html": args += ["-r", case["renderer"]]
